@@ -1564,6 +1564,16 @@ fn c10(ix: &Ix, f: &mut Findings) {
                 }
             }
             Res::Send | Res::Receive => {
+                // the handler produced this request's reply before the deadline while the caller was still waiting: the outcome
+                // is that reply - a later end of the actor must not replace it by an error
+                if o.kind.ask_family() && o.mty != 'J' {
+                    if let Some((hp, _, hr)) = ix.hexit.get(&o.uid).map(|h| (h.0, (), h.2)) {
+                        let caller_still_waiting = o.end.as_ref().map(|e| e.0 > hp).unwrap_or(false);
+                        if hr <= d && caller_still_waiting {
+                            f.v("C10.masked", Some(o.actor), format!("{:?} uid {}: the reply was produced at {} ms, before the deadline {} ms, and the caller was still waiting, yet the call returned {:?}", o.kind, o.uid, hr, d, res));
+                        }
+                    }
+                }
                 f.o("C10.prompt_failure");
                 // failure instants: call start (mailbox already closed), the actor's end, or the panic of this very handler
                 let hp = ix.hpanic.get(&o.uid).map(|h| h.1);
